@@ -12,6 +12,8 @@
 (*           violation, filed by the enumeration's verdict)                *)
 (*   "bad"   not a pattern of the scrutinee type                           *)
 (*   "empty" a pattern, but every value it covers is matched by some arm   *)
+(* lenient[i]: the tree is a pattern only under the lenient reading of     *)
+(* `C of _, _` (see AbraMatch!Elab); counted as evidence, not a violation. *)
 (***************************************************************************)
 EXTENDS MatchCases
 VARIABLE done
@@ -20,14 +22,18 @@ Verdict(r) ==
   LET ty == TyU[r.ti].ty
       vals == Vals[r.ti]
       exh == Exhaustive(vals, r.arms)
-      one(w) == LET p == Elab(ty, w)
-                IN IF exh THEN "moot" ELSE IF p = BadPat THEN "bad" ELSE IF WitnessOK(vals, r.arms, p) THEN "ok" ELSE "empty"
+      pat(w) == Elab(ty, w, TRUE)
+      one(w) == IF exh THEN "moot" ELSE IF pat(w) = BadPat THEN "bad" ELSE IF WitnessOK(vals, r.arms, pat(w)) THEN "ok" ELSE "empty"
       vs == [i \in 1..Len(r.wits) |-> one(r.wits[i])]
+      \* the same question if payloads of generic enums had one more, unlistable value (names the family only)
+      okOg(w) == \E v \in UnmatchedG(ValsOg[r.ti], r.arms, SemOg) : MatchesG(v, pat(w), SemOg)
   IN [id |-> r.id, verdicts |-> vs,
+      lenient |-> [i \in 1..Len(vs) |-> pat(r.wits[i]) # BadPat /\ Elab(ty, r.wits[i], FALSE) = BadPat],
       keys |-> [i \in 1..Len(vs) |->
                   CASE vs[i] = "bad" -> "C12|reported-missing-pattern-is-not-a-pattern|" \o TyU[r.ti].n \o "|" \o r.texts[i]
-                    [] vs[i] = "empty" -> "C12|reported-missing-pattern-covers-no-unmatched-value|" \o TyU[r.ti].n \o "|" \o
-                                          JoinS(ArmsTxt(ty, r.arms), " ; ") \o "|" \o r.texts[i]
+                    [] vs[i] = "empty" -> IF okOg(r.wits[i]) THEN "C12|generic-enum-payload|reported-missing-pattern-covers-no-unmatched-value"
+                                          ELSE "C12|reported-missing-pattern-covers-no-unmatched-value|" \o TyU[r.ti].n \o "|" \o
+                                               JoinS(ArmsTxt(ty, r.arms), " ; ") \o "|" \o r.texts[i]
                     [] OTHER -> ""]]
 Init == done = FALSE
 Next == ~done /\ done' = TRUE /\ ndJsonSerialize(IOEnv.OUT, [i \in 1..Len(Obs) |-> Verdict(Obs[i])])
